@@ -132,6 +132,7 @@ type ContractFile struct {
 	LockInvs   []*LockInv
 	LockLevels [][2]string
 	Ifaces     map[string]*InterfaceContract
+	FuncFields map[string][]string  // "Type.field" -> lock classes any function stored in the field may acquire
 	Externs    map[string]*Contract // "pkgpath::Key" -> contract for a function outside the repository
 	GhostVars  map[string]string // name -> type text
 	Consts     map[string]string
@@ -140,7 +141,7 @@ type ContractFile struct {
 }
 
 var itemKeywords = map[string]bool{"spec": true, "lemma": true, "axiom": true, "typeinv": true, "interface": true,
-	"ghost": true, "guarded_by": true, "lockinv": true, "locklevel": true, "func": true, "const": true, "props": true, "extern": true, "canary": true}
+	"ghost": true, "guarded_by": true, "lockinv": true, "locklevel": true, "func": true, "const": true, "props": true, "extern": true, "canary": true, "funcfield": true}
 
 var clauseKeywords = map[string]bool{"mode": true, "instances": true, "requires": true, "ensures": true, "modifies": true,
 	"pure": true, "trusted": true, "holds": true, "acquires": true, "releases": true, "decreases": true, "case": true, "use": true,
@@ -179,7 +180,7 @@ func ParseContractFile(path string, pkg string) (*ContractFile, error) {
 
 func ParseContractText(data, path, pkg string) (*ContractFile, error) {
 	cf := &ContractFile{Pkg: pkg, Path: path, Funcs: map[string]*Contract{}, Specs: map[string]*SpecFn{},
-		TypeInvs: map[string]*TypeInv{}, Ifaces: map[string]*InterfaceContract{}, GhostVars: map[string]string{}, Consts: map[string]string{}, Externs: map[string]*Contract{}}
+		TypeInvs: map[string]*TypeInv{}, Ifaces: map[string]*InterfaceContract{}, GhostVars: map[string]string{}, Consts: map[string]string{}, Externs: map[string]*Contract{}, FuncFields: map[string][]string{}}
 	// collect logical lines: a //@ line starting with an item or clause keyword starts a new logical line,
 	// anything else continues the previous one.
 	var logical []rawLine
@@ -236,6 +237,13 @@ func ParseContractText(data, path, pkg string) (*ContractFile, error) {
 					return nil, fail("const needs name = value")
 				}
 				cf.Consts[strings.TrimSpace(parts[0])] = strings.TrimSpace(parts[1])
+			case "funcfield":
+				// funcfield T.f acquires L1, L2 : every function stored in field f of T may acquire (only) these lock classes
+				f := strings.Fields(strings.ReplaceAll(rest, ",", " "))
+				if len(f) < 2 || f[1] != "acquires" {
+					return nil, fail("funcfield T.f acquires <lock classes>")
+				}
+				cf.FuncFields[f[0]] = f[2:]
 			case "canary":
 				// canary <known-finding id> <name> [hints]: <statement that is false because of the finding>
 				idx := strings.Index(rest, ":")
